@@ -4,7 +4,8 @@
    [ops] from the empty pool); geometries are arbitrary ([geo_wf] is what net.ParseCIDR guarantees). *)
 From Coq Require Import NArith List.
 From Verif Require Import Base.Word Model.PoolMap Model.Geometry Model.PoolSpec Model.Bitmap Model.Epoch
-  Proofs.GeometryProofs Proofs.BitmapProofs Proofs.EpochProofs.
+  Model.FreeList Model.HashAlloc
+  Proofs.GeometryProofs Proofs.BitmapProofs Proofs.EpochProofs Proofs.FreeListProofs Proofs.HashAllocProofs.
 Import ListNotations.
 Local Open Scope N_scope.
 
@@ -105,3 +106,80 @@ Example C01_epoch_nonvacuous :
   let s := erun 167772160 29 32 1 [Alloc 1; Alloc 2; Advance; Renew 2; Release 1; Alloc 3; Advance] in
   aget 2 (e_subs s) = Some 2 /\ aget 3 (e_subs s) = Some 1 /\ aget 1 (e_subs s) = None.
 Proof. vm_compute. split; [reflexivity|split; reflexivity]. Qed.
+
+(* ---------- free-list pools: dhcp.Pool, dhcpv6 AddressPool / PrefixPool, pppoe.IPPool (after fix
+   9686c62), pool.LocalPool -- one parametric Model; every universe without duplicates, every history ---- *)
+Theorem C01_freelist_unique : forall univ ops, NoDup univ -> forall h1 h2 u,
+  aget h1 (f_alloc (frun univ ops)) = Some u -> aget h2 (f_alloc (frun univ ops)) = Some u -> h1 = h2.
+Proof. exact freelist_unique. Qed.
+Print Assumptions C01_freelist_unique.
+
+Theorem C01_freelist_in_range : forall univ ops, NoDup univ -> forall h u,
+  aget h (f_alloc (frun univ ops)) = Some u -> In u univ.
+Proof. exact freelist_in_range. Qed.
+Print Assumptions C01_freelist_in_range.
+
+Theorem C01_freelist_stable : forall univ ops, NoDup univ -> forall h u,
+  aget h (f_alloc (frun univ ops)) = Some u ->
+  FreeList.step (frun univ ops) (Alloc h) = (frun univ ops, OUnit u, []).
+Proof. exact freelist_stable. Qed.
+Print Assumptions C01_freelist_stable.
+
+Theorem C01_freelist_answer_is_held : forall univ ops, NoDup univ -> forall h u,
+  FreeListProofs.outp (frun univ ops) (Alloc h) = OUnit u ->
+  aget h (f_alloc (FreeListProofs.next (frun univ ops) (Alloc h))) = Some u.
+Proof. exact freelist_answer. Qed.
+Print Assumptions C01_freelist_answer_is_held.
+
+(* the universes built by walking the CIDR have no duplicates and stay inside it, for every base and
+   prefix length (the byte-adding / bit-placing constructors are covered by C01_nocarry_is_addition
+   and, per generated case, by the NoDup/inside check evaluated in Model/PoolCheck.v) *)
+Theorem C01_v6addr_universe : forall base ppl,
+  NoDup (v6addr_univ base ppl) /\
+  forall u, In u (v6addr_univ base ppl) -> base < u /\ u < base + 2 ^ (128 - ppl).
+Proof. exact v6addr_universe. Qed.
+Print Assumptions C01_v6addr_universe.
+
+Theorem C01_pppoe_universe : forall base ppl gw,
+  NoDup (pppoe_univ base ppl gw) /\
+  forall u, In u (pppoe_univ base ppl gw) -> base < u /\ u < base + 2 ^ (32 - ppl) /\ u <> gw.
+Proof. exact pppoe_universe. Qed.
+Print Assumptions C01_pppoe_universe.
+
+(* pppoe.IPPool as it was before fix 9686c62 (no look-up of the session): stability refuted *)
+Theorem C01_pppoe_stable_refuted_before_fix :
+  let s := fold_left FreeListProofs.next [Alloc 1; Alloc 1] (finit false [10; 11]) in
+  aget 1 (f_alloc s) = Some 11 /\
+  FreeListProofs.outp (fold_left FreeListProofs.next [Alloc 1] (finit false [10; 11])) (Alloc 1) = OUnit 11 /\
+  FreeListProofs.outp s (Alloc 2) = OErr 1 /\ (forall h, aget h (f_alloc s) <> Some 10).
+Proof. exact freelist_nonidem_refuted. Qed.
+Print Assumptions C01_pppoe_stable_refuted_before_fix.
+
+Example C01_freelist_nonvacuous :
+  aget 2 (f_alloc (frun [10; 11; 12] [Alloc 1; Alloc 2; Release 1; Alloc 3; Alloc 4])) = Some 11 /\
+  aget 4 (f_alloc (frun [10; 11; 12] [Alloc 1; Alloc 2; Release 1; Alloc 3; Alloc 4])) = Some 10.
+Proof. split; vm_compute; reflexivity. Qed.
+
+(* ---------- hash-based central allocation (nexus allocateFromPool) ---------- *)
+(* uniqueness is refuted: pigeonhole in a /30, and a concrete FNV-1a collision modulo a /24
+   (known finding K01a, marker 102) *)
+Theorem C01_hash_unique_refuted_slash30 :
+  exists h1 h2 a, h1 <> h2 /\ aget h1 (hs_addr (hrun c30 [Alloc 1; Alloc 2; Alloc 3])) = Some a /\
+                  aget h2 (hs_addr (hrun c30 [Alloc 1; Alloc 2; Alloc 3])) = Some a.
+Proof. exact hash_unique_refuted_slash30. Qed.
+Print Assumptions C01_hash_unique_refuted_slash30.
+
+Theorem C01_hash_unique_refuted_slash24 :
+  exists h1 h2, coll24 = Some (h1, h2) /\ h1 <> h2 /\ hash_addr c24 h1 = hash_addr c24 h2.
+Proof. exact hash_unique_refuted_slash24. Qed.
+Print Assumptions C01_hash_unique_refuted_slash24.
+
+(* in_range is refuted for a CIDR written with host bits (K01b, marker 103) *)
+Theorem C01_hash_in_range_refuted : hash_usable c26 (hash_addr c26 11) = false.
+Proof. exact hash_in_range_refuted. Qed.
+Print Assumptions C01_hash_in_range_refuted.
+
+Theorem C01_hash_stable : forall c ops h a, aget h (hs_addr (hrun c ops)) = Some a ->
+  HashAlloc.step (hrun c ops) (Alloc h) = (hrun c ops, OUnit a, []).
+Proof. exact hash_stable. Qed.
+Print Assumptions C01_hash_stable.
